@@ -121,6 +121,7 @@ let flags_of (s : string) : flags =
 let builtins : str list ref = ref []
 let cases = ref 0 and modelled = ref 0 and parse_failed = ref 0 and skipped_long = ref 0 and shape_checked = ref 0
 let max_model_len = 60000
+let slowest = ref 0.0 and slowest_case = ref ""
 
 let () =
   let fl = flags_of (if Array.length Sys.argv > 1 then Sys.argv.(1) else "00000") in
@@ -140,6 +141,7 @@ let () =
         if String.length text_s > max_model_len then incr skipped_long
         else begin
           incr modelled;
+          let t0 = Unix.gettimeofday () in
           let text = to_str text_s in
           let f = parse_forest forest in
           incr shape_checked;
@@ -165,9 +167,13 @@ let () =
           let idocs = try List.assoc "docs" (List.filter_map (fun kv -> match String.index_opt kv '=' with
               | Some i -> Some (String.sub kv 0 i, String.sub kv (i + 1) (String.length kv - i - 1)) | None -> None) (String.split_on_char ';' extras)) with Not_found -> "-" in
           let mdocs = if docs_consume f then "ok" else "PANIC" in
-          if idocs <> "-" && idocs <> mdocs then report "model" case ("docs|" ^ idocs) mdocs
+          if idocs <> "-" && idocs <> mdocs then report "model" case ("docs|" ^ idocs) mdocs;
+          let dt = Unix.gettimeofday () -. t0 in
+          if dt > !slowest then (slowest := dt; slowest_case := String.sub case 0 (min 100 (String.length case)));
+          if dt > 3.0 && Sys.getenv_opt "C09_SLOW" <> None then prerr_endline (Printf.sprintf "slow %.1fs len=%d %s" dt (String.length text_s) (String.sub case 0 (min 300 (String.length case))))
         end
       end
     | _ -> ());
+  Printf.printf "#MODELSLOWEST\t%.2fs\t%s\n" !slowest !slowest_case;
   Printf.printf "#RUNNER\tcases=%d\tmismatches=%d\tmodelled=%d\tparse_failed=%d\tskipped_long=%d\tshape_checked=%d\n"
     !cases !mismatches !modelled !parse_failed !skipped_long !shape_checked
